@@ -176,8 +176,34 @@ func c20Judge(c *mon.Ctx, class string, tok []byte, mustAccept bool) {
 	}
 }
 
+// c20Mistyped: the payload is a map, but one that cannot be decoded as claims
+// (a known claim carries a value its Go type cannot hold) - "whose payload is
+// itself a decodable claims map" fails, so the envelope must be rejected.
+func c20Mistyped(c *mon.Ctx, class string, tok []byte) {
+	c.Eval()
+	c.Count("envelopes:payload-mistyped-claim")
+	var err, err2 error
+	var ev2 psatoken.Evidence
+	if pn, pv, fr := mon.Guard(func() {
+		_, err = psatoken.DecodeEvidenceFromCOSE(tok)
+		err2 = ev2.UnmarshalCOSE(tok)
+	}); pn {
+		c.Violation("C20/panic/"+mon.PanicKey(fr), "panic while decoding an envelope", map[string]any{"panic": pv, "frame": fr, "class": class, "token_hex": mon.Hex(tok)})
+		return
+	}
+	if err == nil || err2 == nil {
+		d := map[string]any{"class": class, "token_hex": mon.Hex(tok)}
+		if n, _, derr := refcbor.Decode(tok); derr == nil {
+			d["diag"] = trunc(n.Diag(), 1500)
+		}
+		c.Violation("C20/accepted-undecodable-claims/"+class, "an envelope was accepted although its payload map carries a known claim with a value of a type that cannot be decoded into it", d)
+		return
+	}
+	c.Count("outcome:rejected")
+}
+
 func runC20(c *mon.Ctx) {
-	c.Rule("envelopes assembled by the harness's own CBOR encoder around real signed tokens (7 algorithms, both profiles + extension): every tag 0..30 / 61 / 96 / 97 / 98 / none / nested / non-minimal; array lengths 0..6; each of the four elements replaced by every CBOR kind (uint, nint, bstr, empty bstr, tstr, array, map, tag, false, true, null, undefined, float); payload content := int / tstr / array / null / undefined / true / float / bstr(map) / bstr(bstr(map)) / tagged map / map+trailing / empty / truncated map / indefinite map; 1-8 trailing bytes; COSE_Sign, COSE_Mac0, COSE_Mac, COSE_Encrypt0 layouts under their own tag and under tag 18; the four TF-M vectors (both *_mac0.bin must be rejected, both *_sign1.bin accepted); random AST mutations. tag numbers whose low-order bytes are 18 (0x112, 0x1212, 2^16+18, 2^32+18 ...) in every argument width. Every envelope is judged by DecodeEvidenceFromCOSE, by UnmarshalCOSE on a fresh Evidence, on an Evidence with claims already attached, and on an Evidence that decoded a good token before - all four must agree. Oracle: a nil error from DecodeEvidenceFromCOSE / Evidence.UnmarshalCOSE requires that the independent reader sees tag 18 -> array of exactly 4 -> [bstr, map, bstr, non-empty bstr], nothing after it, and a payload whose content is exactly one CBOR map that decodes as claims (tagged map = NO-VERDICT); both entry points must agree; an accepted Evidence must hold (hook H2) exactly the token's parts; unmodified tokens must be accepted (positive control). distinct_nontrivial = distinct (class, variant) signatures")
+	c.Rule("envelopes assembled by the harness's own CBOR encoder around real signed tokens (7 algorithms, both profiles + extension): every tag 0..30 / 61 / 96 / 97 / 98 / none / nested / non-minimal; array lengths 0..6; each of the four elements replaced by every CBOR kind (uint, nint, bstr, empty bstr, tstr, array, map, tag, false, true, null, undefined, float); payload := a claims map of either profile in which one known claim (or a component / component field) carries a value of an undecodable type (17 kinds); every tag number 0..300; payload content := int / tstr / array / null / undefined / true / float / bstr(map) / bstr(bstr(map)) / tagged map / map+trailing / empty / truncated map / indefinite map; 1-8 trailing bytes; COSE_Sign, COSE_Mac0, COSE_Mac, COSE_Encrypt0 layouts under their own tag and under tag 18; the four TF-M vectors (both *_mac0.bin must be rejected, both *_sign1.bin accepted); random AST mutations. tag numbers whose low-order bytes are 18 (0x112, 0x1212, 2^16+18, 2^32+18 ...) in every argument width. Every envelope is judged by DecodeEvidenceFromCOSE, by UnmarshalCOSE on a fresh Evidence, on an Evidence with claims already attached, and on an Evidence that decoded a good token before - all four must agree. Oracle: a nil error from DecodeEvidenceFromCOSE / Evidence.UnmarshalCOSE requires that the independent reader sees tag 18 -> array of exactly 4 -> [bstr, map, bstr, non-empty bstr], nothing after it, and a payload whose content is exactly one CBOR map that decodes as claims (tagged map = NO-VERDICT); both entry points must agree; an accepted Evidence must hold (hook H2) exactly the token's parts; unmodified tokens must be accepted (positive control). distinct_nontrivial = distinct (class, variant) signatures")
 	if err := extprof.Register(extprof.ExtP2Name); err != nil {
 		c.Violation("harness/register", err.Error(), nil)
 		return
@@ -265,6 +291,13 @@ func runC20(c *mon.Ctx) {
 		c20Judge(c, "control:unprotected-kid", envelopeBytes(18, P(), withU, Y(), S()), true)
 		c.Count("controls:" + alg)
 
+		// every tag number 31..300 (one-byte arguments and the first two-byte ones)
+		if r%4 == 0 {
+			for t := int64(31); t <= 300; t++ {
+				c20Judge(c, "tag", envelopeBytes(t, parts()...), false)
+			}
+			sig("tag|31..300")
+		}
 		// tags
 		for t := int64(-1); t <= 30; t++ {
 			if t == 18 {
@@ -344,6 +377,39 @@ func runC20(c *mon.Ctx) {
 		for _, v := range pv {
 			c20Judge(c, "payload:"+v.name, envelopeBytes(18, P(), U(), refcbor.Bstr(v.b), S()), false)
 			sig("payload|" + v.name)
+		}
+		// payload = a MAP that cannot be a claims-set: a known claim of either
+		// profile carries a value of a type that cannot be decoded into it
+		for p := 1; p <= 2; p++ {
+			intKey, bstrKey, tstrKey := model.KeyOf(p, "client-id"), model.KeyOf(p, "impl-id"), model.KeyOf(p, "vsi")
+			lcKey, compKey := model.KeyOf(p, "lifecycle"), model.KeyOf(p, "sw-components")
+			for _, mt := range []struct {
+				name string
+				k    int64
+				v    *refcbor.Node
+			}{
+				{"text-for-int", intKey, refcbor.Tstr("7")}, {"bstr-for-int", lcKey, refcbor.Bstr([]byte{0x30, 0x00})}, {"array-for-int", intKey, refcbor.Arr(refcbor.U(1))},
+				{"map-for-int", lcKey, refcbor.MapOf()}, {"float-for-int", lcKey, refcbor.Flt(12288.5, 8)}, {"too-wide-for-uint16", lcKey, refcbor.U(70000)}, {"negative-for-uint16", lcKey, refcbor.I(-1)},
+				{"uint-for-bstr", bstrKey, refcbor.U(5)}, {"text-for-bstr", bstrKey, refcbor.Tstr("x")}, {"map-for-bstr", bstrKey, refcbor.MapOf()},
+				{"uint-for-text", tstrKey, refcbor.U(5)}, {"bstr-for-text", tstrKey, refcbor.Bstr([]byte("x"))}, {"array-for-text", tstrKey, refcbor.Arr()},
+				{"uint-for-component-list", compKey, refcbor.U(1)}, {"map-for-component-list", compKey, refcbor.MapOf()}, {"list-of-uints-for-components", compKey, refcbor.Arr(refcbor.U(1))},
+				{"component-with-text-measurement-value", compKey, refcbor.Arr(refcbor.MapOf(refcbor.U(2), refcbor.Tstr("x"), refcbor.U(5), refcbor.Bstr(g.Bytes(32))))},
+			} {
+				a := g.Valid(p)
+				w := a.WireCBOR()
+				found := false
+				for q := 0; q+1 < len(w.Items); q += 2 {
+					if kk, _ := w.Items[q].Int64(); kk == mt.k {
+						w.Items[q+1] = mt.v
+						found = true
+					}
+				}
+				if !found {
+					w.Items = append(w.Items, refcbor.I(mt.k), mt.v)
+				}
+				c20Mistyped(c, fmt.Sprintf("payload:map-with-mistyped-claim:P%d:%s", p, mt.name), envelopeBytes(18, P(), U(), refcbor.Bstr(refcbor.Encode(w)), S()))
+				sig(fmt.Sprintf("payload-mistyped|P%d|%s", p, mt.name))
+			}
 		}
 		// trailing bytes
 		for l := 1; l <= 8; l++ {
